@@ -227,7 +227,11 @@ pub fn check_pair(first: &Pos, second: &Pos) -> Option<Violation> {
 /// Replay one recorded violation without the explorer's search: rebuild the seed, follow the
 /// recorded path with a single work item, evaluate the owning oracle there.
 pub fn replay(v: &serde_json::Value) -> i32 {
-    let prop = v["property"].as_str().unwrap_or("");
+    let prop = v["property"].as_str().unwrap_or("").to_string();
+    replay_with_flags(v, &prop, flags_for(&prop))
+}
+
+pub fn replay_with_flags(v: &serde_json::Value, prop: &str, flags: u32) -> i32 {
     let class = v["class"].as_str().unwrap_or("");
     if v["extra"]["kind"].as_str() == Some("pair") {
         let first = Pos::from_fen(v["extra"]["first"].as_str().unwrap_or("")).unwrap();
@@ -276,7 +280,7 @@ pub fn replay(v: &serde_json::Value) -> i32 {
     let mut outcomes = Vec::new();
     for _ in 0..2 {
         let sink = Sink::new(50);
-        let cfg = WalkCfg { owner: prop.to_string(), flags: flags_for(prop), dedup: false, gen_renew: 150_000, threads: 1, wall_cap_s: 0 };
+        let cfg = WalkCfg { owner: prop.to_string(), flags, dedup: false, gen_renew: 60_000, threads: 1, wall_cap_s: 0 };
         let w = Walker::new(cfg, &sink);
         // visit every node along the path (so that history-dependent effects are rebuilt), then the end
         let mut items = Vec::new();
